@@ -2,7 +2,7 @@
 
 A unit is described by /verif/contracts/<unit>.vspec (directive syntax below).  Everything that is
 executable in the generated file is cut verbatim from /repo's current working tree; the only
-changes are (a) the closed list of syntactic normalisations N1..N13 and (b) specification text
+changes are (a) the closed list of syntactic normalisations N1..N14 and (b) specification text
 spliced at structural anchor points S1..S8.  Every change is an `Edit` with its source offset; an
 erasure self-check undoes all of them on the generated text and demands the verbatim cut back.
 
@@ -292,25 +292,83 @@ def norm_closure_underscore(text, m):
     return [Edit(mm.start(), "|_|", "|_verif_unused|", "norm:N3") for mm in re.finditer(r"\|_\|", m)]
 
 
-_N13_ZIP = re.compile(r"(?<![\w.])(\w+)(\s*\.iter\(\)\s*\.zip\()(\w+)(\.iter\(\)\)\s*\.all\(\|\((\w+), (\w+)\)\|)")
+_N13_ZIP_ALL = re.compile(r"(?<![\w.])(\w+)(\s*\.iter\(\)\s*\.zip\()(\w+)(\.iter\(\)\)\s*\.all\()(?=\|)")
 _N13_ALL = re.compile(r"(?<![\w.])(\w+)(\s*\.iter\(\)\s*\.all\()(?=\|)")
+_N13_ZIP_MAP = re.compile(r"(?<![\w.])(\w+\s*\.iter\(\))(\s*\.zip\()(\w+\s*\.iter\(\))(\)\s*\.map\()(?=\|)")
+_N13_MAP = re.compile(r"(?<![\w.])(\w+\s*\.iter\(\))(\s*\.map\()(?=\|)")
+_N13_FOLD = re.compile(r"(?<![\w.])(\w+\s*\.iter\(\))(\s*\.fold\()")
+_N13_TAIL_COLLECT = re.compile(r"\)\s*\.collect\(\)")
+_N13_TAIL_SUM = re.compile(r"\)\s*\.sum\(\)")
 
 
-def norm_iter_all(text, m):
-    """N13: two std iterator chains over a named Vec are routed through helper functions whose contract states
-    what `Iterator::all` (over `slice::Iter` / `Zip`) does; the closure, its body and the operands stay verbatim:
-        A.iter().zip(B.iter()).all(|(p, q)| BODY)   ->   verif_zip_all(&A, &B, |p, q| BODY)
-        A.iter().all(|p| BODY)                      ->   verif_all(&A, |p| BODY)
-    The helpers are external (assumption A-iter); Verus has no specification for iterator adapters."""
+def norm_iter_chains(text, m, body_open, body_close):
+    """N13: a std iterator chain is *outlined* into a helper function whose body is that same chain and whose
+    contract is PROVED from vstd's specifications of std iterators in the same file (contracts/common/
+    iter_helpers.vinc).  Needed because Verus does not apply those specifications to a closure written inside a
+    generic function (every builtin and every Executor method is generic over the effect type).  The operands,
+    the closure and its body stay verbatim and in place; only the combinator names move into the helper:
+        A.iter().zip(B.iter()).all(C)            ->  verif_zip_all(&A, &B, C)
+        A.iter().all(C)                          ->  verif_all(&A, C)
+        A.iter().zip(B.iter()).map(C).collect()  ->  verif_zip_map_collect(A.iter(), B.iter(), C)
+        A.iter().map(C).collect()                ->  verif_map_collect(A.iter(), C)
+        A.iter().map(C).sum()                    ->  verif_map_sum(A.iter(), C)
+        A.iter().fold(INIT, C)                   ->  verif_fold(A.iter(), INIT, C)
+    with A, B identifiers and C a closure literal."""
     edits = []
-    for mm in _N13_ZIP.finditer(m):
+    closures = None
+
+    def closure_at(pos):
+        nonlocal closures
+        if closures is None:
+            closures = find_closures_safe(m, body_open, body_close)
+        for c in closures:
+            if c[0] == pos:
+                return c
+        return None
+
+    for mm in _N13_ZIP_ALL.finditer(m, body_open, body_close):
         edits.append(Edit(mm.start(1), "", "verif_zip_all(&", "norm:N13"))
         edits.append(Edit(mm.start(2), text[mm.start(2) : mm.end(2)], ", &", "norm:N13"))
-        edits.append(Edit(mm.start(4), text[mm.start(4) : mm.end(4)], ", |%s, %s|" % (mm.group(5), mm.group(6)), "norm:N13"))
-    for mm in _N13_ALL.finditer(m):
+        edits.append(Edit(mm.start(4), text[mm.start(4) : mm.end(4)], ", ", "norm:N13"))
+    for mm in _N13_ALL.finditer(m, body_open, body_close):
         edits.append(Edit(mm.start(1), "", "verif_all(&", "norm:N13"))
         edits.append(Edit(mm.start(2), text[mm.start(2) : mm.end(2)], ", ", "norm:N13"))
+    for mm in _N13_ZIP_MAP.finditer(m, body_open, body_close):
+        c = closure_at(mm.end())
+        if c is None:
+            continue
+        t = _N13_TAIL_COLLECT.match(m, c[3])
+        if not t:
+            continue
+        edits.append(Edit(mm.start(1), "", "verif_zip_map_collect(", "norm:N13"))
+        edits.append(Edit(mm.start(2), text[mm.start(2) : mm.end(2)], ", ", "norm:N13"))
+        edits.append(Edit(mm.start(4), text[mm.start(4) : mm.end(4)], ", ", "norm:N13"))
+        edits.append(Edit(t.start(), text[t.start() : t.end()], ")", "norm:N13"))
+    for mm in _N13_MAP.finditer(m, body_open, body_close):
+        c = closure_at(mm.end())
+        if c is None:
+            continue
+        t = _N13_TAIL_COLLECT.match(m, c[3])
+        name = "verif_map_collect("
+        if not t:
+            t = _N13_TAIL_SUM.match(m, c[3])
+            name = "verif_map_sum("
+        if not t:
+            continue
+        edits.append(Edit(mm.start(1), "", name, "norm:N13"))
+        edits.append(Edit(mm.start(2), text[mm.start(2) : mm.end(2)], ", ", "norm:N13"))
+        edits.append(Edit(t.start(), text[t.start() : t.end()], ")", "norm:N13"))
+    for mm in _N13_FOLD.finditer(m, body_open, body_close):
+        edits.append(Edit(mm.start(1), "", "verif_fold(", "norm:N13"))
+        edits.append(Edit(mm.start(2), text[mm.start(2) : mm.end(2)], ", ", "norm:N13"))
     return edits
+
+
+def find_closures_safe(m, body_open, body_close):
+    try:
+        return rs.find_closures(m, body_open, body_close)
+    except Exception:
+        return []
 
 
 def norm_paths(text, m, prefixes):
@@ -584,6 +642,14 @@ def gen_fn(d, strip_paths, mode="verify", contract_text=None, vacuity=False):
         if not is_block:
             edits.append(Edit(bs, "", "{ ", "norm:N12"))
             edits.append(Edit(be, "", " }", "norm:N12"))
+        # N14: a tuple pattern in the parameter list of a closure that carries a contract (Verus accepts only plain
+        # variables there): `|(a, b)| BODY` -> `|verif_arg| { let (a, b) = verif_arg; BODY }` - Rust's own
+        # meaning of a pattern parameter.
+        params = m[cs + 1 : pe]
+        pm = re.match(r"^\((\w+), (\w+)\)$", params)
+        if pm:
+            edits.append(Edit(cs + 1, params, "verif_arg", "norm:N14"))
+            edits.append(Edit(bs + (1 if is_block else 0), "", " let " + params + " = verif_arg; ", "norm:N14"))
     declared_closures = d.opt("closures")
     if declared_closures is not None:
         if closures is None:
@@ -610,7 +676,7 @@ def gen_fn(d, strip_paths, mode="verify", contract_text=None, vacuity=False):
 
     edits.extend(norm_macros(text, m, strip_paths))
     edits.extend(norm_closure_underscore(text, m))
-    edits.extend(norm_iter_all(text, m))
+    edits.extend(norm_iter_chains(text, m, body_open, body_close))
     edits.extend(norm_let_chains(text, m, body_open, body_close))
     macro_spans = [(x.off, x.off + len(x.old)) for x in edits if x.kind in ("norm:N1", "norm:N2")]
     for pe in norm_paths(text, m, strip_paths):
@@ -625,7 +691,7 @@ def gen_fn(d, strip_paths, mode="verify", contract_text=None, vacuity=False):
             continue
         final.append(x)
     # merge multiple zero-width insertions at the same offset deterministically by kind order
-    order = {"splice:S5": 0, "splice:S6": 0, "norm:N7": 1, "splice:S1": 2, "splice:S3": 2, "norm:N9": 2, "splice:S2": 3, "norm:N4": 3, "splice:S4": 4, "splice:S7": 2, "norm:N12": 3, "norm:N13": 1}
+    order = {"splice:S5": 0, "splice:S6": 0, "norm:N7": 1, "splice:S1": 2, "splice:S3": 2, "norm:N9": 2, "splice:S2": 3, "norm:N4": 3, "splice:S4": 4, "splice:S7": 2, "norm:N12": 3, "norm:N13": 1, "norm:N14": 4}
     final.sort(key=lambda x: (x.off, 0 if x.old == "" else 1, order.get(x.kind, 5)))
     out, placed = apply_edits(text, final)
     if erase(out, placed) != text:
@@ -681,7 +747,7 @@ def gen_cut(d, strip_paths):
         missing = keepset - seen
         if missing:
             raise ExtractError("lost anchor: struct %s lacks kept field(s) %s" % (name, sorted(missing)))
-    if kind == "struct" and it.header_end is not None:
+    if kind == "struct" and it.header_end is not None and d.opt("vis") != "keep":
         # N11: field visibility -> pub (visibility has no run-time meaning; Verus needs it for specs)
         bo = it.header_end - it.start
         body = text[bo + 1 : len(text) - 1]
